@@ -93,6 +93,27 @@ func init() {
 					c.Failf(fmt.Sprintf("C14:getter-class:%s:0x%04x", prof, v), "getter error %v is not wrong-syntax", gerr)
 				}
 			}
+			// 3b a value written behind the pointer an earlier successful Set stored (as re-decoding into the same object does)
+			for _, prof := range []string{psatoken.Profile1Name, psatoken.Profile2Name} {
+				cl, e := psatoken.NewClaims(prof)
+				if e != nil || cl.SetSecurityLifeCycle(0x3000) != nil {
+					continue
+				}
+				if _, e := cl.GetSecurityLifeCycle(); e != nil {
+					continue
+				}
+				switch x := cl.(type) {
+				case *psatoken.P1Claims:
+					*x.SecurityLifeCycle = v
+				case *psatoken.P2Claims:
+					*x.SecurityLifeCycle = v
+				}
+				g, gerr := cl.GetSecurityLifeCycle()
+				st.Trans.Add(1)
+				if wantValid != (gerr == nil) || (gerr == nil && g != v) {
+					c.Failf(fmt.Sprintf("C14:getter-after-overwrite:%s:0x%04x", prof, v), "%s: Set(0x3000) and Get succeeded, then 0x%04x was written behind the same pointer: Get=(0x%04x,%v), want accepted=%v", prof, v, g, gerr, wantValid)
+				}
+			}
 			// 4 the state type itself, for all 65536 state values
 			s := psatoken.LifeCycleState(v)
 			st.Trans.Add(1)
